@@ -45,6 +45,32 @@ type Case struct {
 	Perturb []int `json:"perturb,omitempty"`
 	// Scale: the case is a scale case (internal/exprgen/gen_scale.go): what was scaled and how far
 	Scale *x.Scale `json:"scale,omitempty"`
+	// EOL: line-end class of the case (0 LF, 1 CR LF, 2 mixed): what the line ends of the generated
+	// multi-line literals are, and what the text environments of the printings mostly are; informational
+	EOL int `json:"eol,omitempty"`
+}
+
+// genText draws the text environment of one printing (internal/exprgen/textenv.go): the default
+// one (LF, nothing added) 4 times in 10, else line ends that follow the line-end class of the case 3
+// times in 4, and every other dimension default or not with about equal odds.
+func genText(t *rapid.T, class int) x.TextEnv {
+	var e x.TextEnv
+	if rapid.IntRange(0, 9).Draw(t, "textdefault") < 4 {
+		return e
+	}
+	if rapid.IntRange(0, 3).Draw(t, "eolfollow") > 0 {
+		e.EOL = class
+	} else {
+		e.EOL = rapid.IntRange(0, 2).Draw(t, "eol")
+	}
+	e.Final = []int{0, 0, 1, 2, 3}[rapid.IntRange(0, 4).Draw(t, "final")]
+	e.BOM = rapid.IntRange(0, 4).Draw(t, "bom") == 2
+	e.Trail = []int{0, 0, 1, 2, 3}[rapid.IntRange(0, 4).Draw(t, "trail")]
+	e.Indent = rapid.IntRange(0, 3).Draw(t, "indent")
+	e.Blank = []int{0, 0, 1, 2}[rapid.IntRange(0, 3).Draw(t, "blank")]
+	e.CmtCR = rapid.IntRange(0, 3).Draw(t, "cmtcr") == 2
+	e.Seed = rapid.Uint64Range(1, 1<<62).Draw(t, "textseed")
+	return e
 }
 
 func genStyle(t *rapid.T) x.Style {
@@ -70,6 +96,9 @@ func gen(t *rapid.T, template bool) Case {
 	var c Case
 	c.Template = template
 	g := x.NewG(t, 0)
+	// TEXT: line-end class of the case: LF (half of the cases), CR LF, mixed
+	c.EOL = []int{0, 0, 0, 0, 0, 1, 1, 1, 2, 2}[rapid.IntRange(0, 9).Draw(t, "eolclass")]
+	g.SetEOL(c.EOL)
 	c.Vars = g.GenEnv()
 	if c.Vars == nil {
 		c.Vars = []x.Var{}
@@ -81,7 +110,10 @@ func gen(t *rapid.T, template bool) Case {
 	// depth of the generated tree: 3,2,4,5,1 in decreasing likelihood (faults and try/can wrappers add up to 2 levels)
 	depth := []int{3, 2, 4, 5, 1}[rapid.IntRange(0, 4).Draw(t, "depth")]
 	g.SetBudget(4 + 5*depth)
-	if template {
+	if template && rapid.IntRange(0, 9).Draw(t, "hdbody") < 2 {
+		// a template shaped like the body of a heredoc (internal/exprgen/gen_text.go)
+		c.Root = g.HeredocBody(depth)
+	} else if template {
 		c.Root = g.Template(depth, true)
 	} else {
 		c.Root = g.ExprOf(g.RootType(), depth)
@@ -127,6 +159,20 @@ func gen(t *rapid.T, template bool) Case {
 	for i := 0; i < n; i++ {
 		c.Styles = append(c.Styles, genStyle(t))
 	}
+	// TEXT: every printing, the canonical one included, is written into a drawn text environment;
+	// trees with multi-line literals are spelled as heredocs (flush ones too) more often
+	multi := false
+	for _, l := range x.TextShape(c.Root, nil) {
+		if l == "str:multi-line-literal" {
+			multi = true
+		}
+	}
+	for i := range c.Styles {
+		c.Styles[i].Text = genText(t, c.EOL)
+		if i > 0 && multi && rapid.IntRange(0, 3).Draw(t, "hdforce") > 0 {
+			c.Styles[i].Heredoc = 2
+		}
+	}
 	if c.Scale != nil {
 		// every printing, the canonical one included, writes one object item per line: the
 		// scaled construct lies inside a newline-sensitive context in all of them
@@ -142,6 +188,7 @@ func gen(t *rapid.T, template bool) Case {
 type outcome struct {
 	src    string
 	mode   string
+	facts  map[string]bool
 	val    cty.Value
 	hasErr bool
 	firstE string
@@ -213,12 +260,12 @@ func run(c Case, i int, ctx *hcl.EvalContext) (outcome, *core.Violation) {
 	var pd hcl.Diagnostics
 	if c.Template && i%2 == 0 {
 		o.mode = "template:" + st.Modes()
-		o.src = x.PrintTemplate(c.Root, st)
+		o.src, o.facts = x.PrintTemplateF(c.Root, st)
 		expr, pd = hclsyntax.ParseTemplate([]byte(o.src), "case.tmpl", hcl.InitialPos)
 	} else {
 		o.mode = "expr:" + st.Modes()
 		var hd bool
-		o.src, hd = x.PrintExpr(c.Root, st)
+		o.src, hd, o.facts = x.PrintExprF(c.Root, st)
 		if hd {
 			o.mode += "+hd"
 		}
@@ -241,9 +288,10 @@ func run(c Case, i int, ctx *hcl.EvalContext) (outcome, *core.Violation) {
 }
 
 type verdict struct {
-	ref  string // value | error | unspec | errok
-	why  string
-	root *x.Node
+	ref   string // value | error | unspec | errok
+	why   string
+	root  *x.Node
+	facts map[string]bool // what the printings actually wrote (heredoc forms, line ends of their content, ...)
 }
 
 var last verdict
@@ -280,6 +328,12 @@ func check(c Case) *core.Violation {
 			return v
 		}
 		outs[i] = o
+		for f := range o.facts {
+			if last.facts == nil {
+				last.facts = map[string]bool{}
+			}
+			last.facts[f] = true
+		}
 	}
 	// (3) hclsyntax.Variables() of every parsed printing names exactly the free variables of the tree
 	if v := checkVariables(c, outs, ufs); v != nil {
@@ -606,6 +660,29 @@ func classify(c Case) core.Class {
 			cl.Labels = append(cl.Labels, "scale:pos="+c.Scale.Pos)
 		}
 	}
+	// TEXT: the text environments of the printings, the shape of the multi-line literals, and what
+	// the printings actually wrote (heredoc forms, line ends of their content, conjunctions)
+	tl := map[string]bool{"eol-class:" + []string{"lf", "crlf", "mixed"}[c.EOL%3]: true}
+	for i, s := range c.Styles {
+		for _, l := range s.Text.Labels() {
+			tl[l] = true
+		}
+		if i == 0 && !s.Text.IsDefault() {
+			tl["text:canonical-printing-in-non-default-text"] = true
+		}
+	}
+	for _, l := range x.TextShape(c.Root, c.Funcs) {
+		tl[l] = true
+	}
+	if last.root == c.Root {
+		for f := range last.facts {
+			tl[f] = true
+		}
+	}
+	for l := range tl {
+		cl.Labels = append(cl.Labels, l)
+	}
+	countText(tl)
 	sl := scopeLabels(c)
 	cl.Labels = append(cl.Labels, sl...)
 	countScopeLabels(c, sl)
@@ -632,6 +709,25 @@ func classify(c Case) core.Class {
 	return cl
 }
 
+// text classes: absolute numbers of cases (of the shard that reports last); extra key
+// text_env_cases_of_this_shard
+var textCount = map[string]int{}
+var textTotal int
+
+func countText(tl map[string]bool) {
+	textTotal++
+	for l := range tl {
+		textCount[l]++
+	}
+	if textTotal%500 == 0 {
+		out := map[string]int{"cases": textTotal}
+		for k, v := range textCount {
+			out[k] = v
+		}
+		core.SetExtra("text_env_cases_of_this_shard", out)
+	}
+}
+
 func faultClass(k string) string {
 	switch k {
 	case "type-op", "bad-cond", "null-op":
@@ -648,13 +744,16 @@ func faultClass(k string) string {
 	return k
 }
 
-const ruleCommon = "environment of 0-6 variables (numbers incl. dyadic fractions and 2^40, strings incl. numeric/boolean-looking and non-ASCII, bools, tuples, objects, cty lists / maps / sets of primitives, of objects, nested and empty, nulls of every type, unknown values), 0-3 functions defined through ext/userfunc blocks (may call earlier ones, variadic, closures over the variables) plus tryfunc try/can; a typed tree of depth<=6 over literals, variables, unary/binary arithmetic, comparison, equality across types, logic, conditional (same-typed, null, string-unification branches), tuple/object constructors (keys as bare literal name incl. true/false/null/if/for, quoted literal, number, operator expression, (k), \"${k}\", \"${k}x\", \"x${k}\", \"${k.a}\", heredoc-able \"${k}\\n\" with k a variable / for iterator / undefined name / null / keyword / non-primitive; selector variables named like one field and valued like another), index (literal, computed, string key, by variable obj[b] vs obj.b), attribute, attribute-only and full splat (incl. traversal inside the splat vs applied to its result, splat of null / single value / list), for-expressions (tuple and object form, key+value variables, if, grouping), calls (incl. argument expansion), templates (literal, ${}, %{if/else}, %{for}, ~ strip markers, passthrough of a single interpolation); with probability 0.35 one node is replaced by an ill-typed variant (16 kinds: ill-typed operator, undefined variable/function, missing attribute, index out of range / negative / fractional / into a primitive, duplicate key without grouping, null or non-primitive in a template, null operand, wrong arity, for over a primitive, non-boolean condition, bad expansion); about 0.4% of the expression roots are a fixed-shape probe (for-expression whose if clause holds a conditional that unifies only for the real key type) that meets the known early-condition-check finding. Every tree is printed 2-3 times: canonical minimal spelling and random spellings (redundant parentheses, spacing, tabs, newlines and # // /* */ comments where insignificant, ':' vs '=' and newline vs comma in object constructors, trailing commas, x.0 vs x[0], .* vs [*], number spellings 1e3 / 2.50 / 25e-1, \\xHH byte escapes (the fork's own escape), quoted vs heredoc vs flush heredoc with extra indentation). Oracle: all printings RawEqual and same error-ness; reference evaluator (exact rationals) says value => no error diagnostic and same value+type; says error => error diagnostic; trees leaving the documented semantics (README.md) are checked metamorphically only. Non-trivial: an operator with an unparenthesised operand of another precedence level in the minimal spelling, or a for-expression / splat / template directive; distinct = (feature set: operators, conditional, access/splat, for, call, template | depth bucket | fault kind | set of printing modes)" + ruleScope + ruleScale
+const ruleCommon = "environment of 0-6 variables (numbers incl. dyadic fractions and 2^40, strings incl. numeric/boolean-looking and non-ASCII, bools, tuples, objects, cty lists / maps / sets of primitives, of objects, nested and empty, nulls of every type, unknown values), 0-3 functions defined through ext/userfunc blocks (may call earlier ones, variadic, closures over the variables) plus tryfunc try/can; a typed tree of depth<=6 over literals, variables, unary/binary arithmetic, comparison, equality across types, logic, conditional (same-typed, null, string-unification branches), tuple/object constructors (keys as bare literal name incl. true/false/null/if/for, quoted literal, number, operator expression, (k), \"${k}\", \"${k}x\", \"x${k}\", \"${k.a}\", heredoc-able \"${k}\\n\" with k a variable / for iterator / undefined name / null / keyword / non-primitive; selector variables named like one field and valued like another), index (literal, computed, string key, by variable obj[b] vs obj.b), attribute, attribute-only and full splat (incl. traversal inside the splat vs applied to its result, splat of null / single value / list), for-expressions (tuple and object form, key+value variables, if, grouping), calls (incl. argument expansion), templates (literal, ${}, %{if/else}, %{for}, ~ strip markers, passthrough of a single interpolation); with probability 0.35 one node is replaced by an ill-typed variant (16 kinds: ill-typed operator, undefined variable/function, missing attribute, index out of range / negative / fractional / into a primitive, duplicate key without grouping, null or non-primitive in a template, null operand, wrong arity, for over a primitive, non-boolean condition, bad expansion); about 0.4% of the expression roots are a fixed-shape probe (for-expression whose if clause holds a conditional that unifies only for the real key type) that meets the known early-condition-check finding. Every tree is printed 2-3 times: canonical minimal spelling and random spellings (redundant parentheses, spacing, tabs, newlines and # // /* */ comments where insignificant, ':' vs '=' and newline vs comma in object constructors, trailing commas, x.0 vs x[0], .* vs [*], number spellings 1e3 / 2.50 / 25e-1, \\xHH byte escapes (the fork's own escape), quoted vs heredoc vs flush heredoc with extra indentation). Oracle: all printings RawEqual and same error-ness; reference evaluator (exact rationals) says value => no error diagnostic and same value+type; says error => error diagnostic; trees leaving the documented semantics (README.md) are checked metamorphically only. Non-trivial: an operator with an unparenthesised operand of another precedence level in the minimal spelling, or a for-expression / splat / template directive; distinct = (feature set: operators, conditional, access/splat, for, call, template | depth bucket | fault kind | set of printing modes)" + ruleScope + ruleScale + ruleText
 
 // name binding (scope_test.go, internal/exprgen/scope.go, gen_scope.go)
 const ruleScope = ". NAME BINDING: the names of iteration variables (for-expressions and %{for} directives) are drawn from a small pool shared with the environment (30% of the environment names come from x/k/v/i), from the visible environment variables / function parameters (the loop SHADOWS them; half of the time one whose value is unknown) and from the variables of the enclosing loops (the inner loop RE-BINDS the name: about 2 in 3 trees with nested loops), with uses of the name before, inside and after the inner loop in one clause (natural in tuple / object constructors, operators and template bodies, plus a 'sandwich' constructor [use, inner loop binding the same name - often `for x in x` -, use][i] / {p = use, q = loop, r = use}.r placed in any clause of a loop); the environment also holds cty.UnknownVal of every generated type, cty.DynamicVal and known tuples / objects / lists / maps that CONTAIN an unknown at some depth (about 1 variable in 4), also under names that loops shadow; try() / can() stand anywhere in the tree and additionally wrap the whole root (2 in 10: try(root), try(root, fallback), can(root)). Extra oracles: (3) the root names of hclsyntax.Variables(expr) of every parsed printing and of every user-function body equal the free variables computed by the harness's own scope-aware walk over the generated tree; (4) when no free variable of the tree or of a function body holds an unknown, the tree is evaluated again in an environment in which every name it cannot see (environment variables that are not free, names bound only by its loops) is replaced by cty.DynamicVal / an unknown string / an unknown list / an object or tuple containing an unknown / a known string / nothing, and error-ness and value must be unchanged; the reference evaluator and the 'unknown involved' exemption are scope-aware (only FREE names that hold unknowns exempt a case; try/can defer only for free names), so a shadowed unknown is under the full differential oracle. Labels scope:*, call:*, unknown:*, conj:* (conjunctions try/can x re-bound-name-used-after-the-inner-loop x environment-holds-that-name-unknown); their rates per 10000 cases are recorded as the extra key name_binding_classes_per_10000_cases because the histogram keeps the 60 most frequent labels only"
 
 // scale classes (internal/exprgen/gen_scale.go)
 const ruleScale = ". SCALE: about 1 case in 60 (draw 1 in 40 of rapid's small-biased range) is turned into a scale case AFTER fault injection and try/can wrapping, labels scale:<what>:<bucket> (buckets 64-129, 255-513, 999-1025, 2047-4097, 8191+; absolute numbers in the extra key scale_cases_of_this_shard), every printing (the canonical one too) then writes one object-constructor item per line and the function blocks with `result` first, followed by the other attributes on later lines (printing dimension itemnl, also drawn for 1 in 4 random styles of ordinary cases). depth: one sub-expression of the root (70%) or of a user-function body (30%) is wrapped N = 63,64,65,127,128,129,255,256,257 or 1000 levels deep in value-preserving wrappers cycling through a drawn pattern of 1-3 kinds - redundant parentheses (a tree node here), [e][0], \"${e}\", [for v in [e] : v][0], {w = e}.w - plus at most two try(e) (the fork evaluates a try argument twice, so k nested try calls cost 2^k: never nested deeply), and the nest is the value of an object-constructor item followed by further items ({p = small, q = NEST, r = small}.q, or an existing non-last item), not below a quoted template where that is possible; HEAD parses and evaluates 10000 levels of every kind (0.2-0.6 s), the cut at 1000 keeps a case below ~0.1 s and its JSON form below encoding/json's nesting limit. tuple / object / for / args with N from {63,64,65,...,8191,8192,8193} (27 threshold-adjacent values): a sub-expression e of the tree is replaced by [bulk.., e, ..bulk][i] / {e0 = .., ei = e, ..}.ei or [\"ei\"] / [for k,v in BULK : v][i], [.. if k >= i][0], {for k,v in BULK : \"e${k}\" => v}[\"ei\"], {.. => v...}.g[i] / f(bulk.., e, ..)[i], f([bulk]...)[i] with a variadic user function, try(failing x (N-1), e), with e before, in the middle of, after the bulk or right at a threshold and two more small generated expressions next to it; tmplparts: N template parts (literals, interpolations, now and then an if directive, optionally ending lines) spliced before / into the middle of / after the parts of a template root, or observed as second element of [root, template]; strlen: a literal of N characters (ASCII, multi-byte, quote, backslash, ${ and %{ escapes); nvars: N more environment variables of which the first, middle and last are read. The wrappers and containers preserve the value of the sub-expression, so all oracles apply unchanged at scale"
+
+// text environment (internal/exprgen/textenv.go, gen_text.go)
+const ruleText = ". TEXT ENVIRONMENT: every printing of a case, the canonical minimal one included, is written into a drawn text environment (default - LF, nothing added - 4 times in 10; labels text:*): line ends LF / CR LF / mixed per line for every line end that is not template content (insignificant newlines, object item and attribute separators, the heredoc introducer line and the closing marker line, ends of # and // comments, newlines inside ${ } and %{ } of heredocs and standalone templates, the function-definition file), a UTF-8 byte order mark at the start (HEAD skips one), the end of the text (nothing / a line end / a line end and blank-only lines / blanks and tabs without a line end; the function file with and without its last line end), blanks / tabs / both before line ends, indentation after line ends made of tabs / blanks / both, blank and blank-only lines and extra line ends wherever the grammar allows a newline (inserted by the text environment also into the canonical spelling), a lone CR inside # // /* */ comments (the only place where HEAD tolerates one). Line ends INSIDE template literals are content: the case has a line-end class (eol-class:lf half of the cases, crlf 3 in 10, mixed 2 in 10) that the generated multi-line literals use and that the text environments of its printings follow 3 times in 4, so that whole-CR-LF texts, whole-LF texts and texts with inconsistent line ends all occur; a quoted template spells them \\r\\n, a heredoc / standalone template writes them raw, and the reference evaluator simply has the CR in the literal - the LF and the CR LF text of one heredoc differ exactly by the CRs of the content lines (verified on HEAD). A CR that is not followed by LF (about 1 template in 25, only in templates without strip markers) is \\r when quoted and ${\"\\r\"} in heredocs and standalone templates, where no raw spelling exists. HEREDOCS: templates shaped like heredoc bodies (1 template root in 5, 1 string expression in 11; 2-8 lines: text at indentation depths 0-8 made of blanks, tabs, both, NBSP, at least one non-blank line without indentation; empty lines; blank-only lines of 1-12 blanks / tabs / NBSP / VT / FF; lines holding one interpolation or one whole %{if} and nothing else; %{if} / %{else} / %{endif} / %{for} / %{endfor} alone on their lines; words that look like markers, comments, introducers) and every other template that ends in a line end are written as <<M or <<-M (forced on 3 of 4 random styles when the tree has a multi-line literal) with markers of several shapes (EOT, E_1, _, e, EOT-2, T-, non-ASCII, 44 characters; one that no body line equals after trimming), the closing marker indented by 0-6 blanks / tabs and followed by blanks; the flush form puts the same NUMBER (0-8) of white space runes - blanks, tabs, both, now and then NBSP / VT / FF / EM SPACE, chosen per line - before every non-blank line and writes blank lines verbatim, HEAD's rule (verified): indentation = leading unicode.IsSpace runes of the line's first literal token, a line of white space only up to its LF (a CR before it included) is blank, takes no part in the minimum and is kept as it is however short or long. Labels heredoc:plain / flush / flush-indented / content-eol=lf|crlf|mixed / empty-line / blank-only-line / flush+blank-only-line-shorter|longer-than-prefix / line-of-one-interpolation|directive / marker=<shape> / closing-marker-indented, str:*, and conjunctions text:<eol>+<form>-heredoc, heredoc:flush-indented+blank-line, heredoc:flush-indented+crlf-blank-line, text:crlf+flush-heredoc+blank-line (whole text CR LF, flush heredoc with indentation added, an empty or blank-only line in it: about 330 per quick run, 300 of them in sub-check b); absolute numbers in the extra key text_env_cases_of_this_shard. All oracles apply unchanged"
 
 var assumptions = []string{
 	"number literals are integers or dyadic fractions so that cty's 512-bit floats are exact; results needing more than 300 bits, non-dyadic quotients, division by zero, modulo outside naturals are not compared with the reference",
